@@ -211,6 +211,10 @@ func rawBytes(kind string, n int) []byte {
 		return append([]byte("d6:pieces"), append(append(rep("l", n), rep("e", n)...), 'e')...)
 	case "deep-files":
 		return append([]byte("d5:files"), append(append(rep("l", n), rep("e", n)...), 'e')...)
+	case "deep-after-list": // d1:ale1:b lllll…   (nesting in value position after a container value closed)
+		return append([]byte("d1:ale1:b"), rep("l", n)...)
+	case "deep-after-dict":
+		return append([]byte("d1:ade1:b"), rep("l", n)...)
 	case "long-string": // declared length far beyond the data
 		return []byte(fmt.Sprintf("d4:name%d:abce", n))
 	case "overflow-string": // a declared length that overflows a 63/64-bit accumulator; n selects value and position
@@ -466,7 +470,8 @@ func genParseCase(r *Rng) gInfo {
 					extra = append(extra, "files:"+[]string{"s6162", "i5", "d", "D2", "l"}[r.Intn(5)])
 					omit["files"] = true
 				case 4:
-					extra = append(extra, "private:"+[]string{"i0", "i1", "i-1", "i2", "s", "s30", "s31", "s74727565", "l", "d", "i99999999999999999999", "i-0", "i00", "r692d65", "D2"}[r.Intn(15)])
+					extra = append(extra, "private:"+[]string{"i0", "i1", "i-1", "i2", "s", "s30", "s31", "s74727565", "l", "d", "i99999999999999999999", "i-0", "i00", "r692d65", "D2",
+						"i4294967296", "i-8589934592", "i281474976710656", "i2147483648", "i4294967295", "i65536", "i256", "i-4294967296", "i9223372036854775807", "i-9223372036854775808"}[r.Intn(25)])
 				}
 			case 6: // duplicate scalar key (the later one wins)
 				dup = []string{"pl", "pieces", "name", "length"}[r.Intn(4)]
@@ -549,7 +554,8 @@ func genParseCase(r *Rng) gInfo {
 		}
 	}
 	if r.Chance(10) {
-		es["private"] = []string{"i1", "i0", "s31"}[r.Intn(3)]
+		es["private"] = []string{"i1", "i0", "s31", "s30", "s", "s74727565", "i-1", "i2", "l", "d", "i256", "i65536", "i2147483648", "i4294967295",
+			"i4294967296", "i-4294967296", "i-8589934592", "i281474976710656", "i9223372036854775807", "i-9223372036854775808"}[r.Intn(20)]
 		order = append(order, "private")
 	}
 	if r.Chance(5) {
@@ -592,7 +598,7 @@ func genParse(r *Rng, n int, tier string) []Case {
 	}
 	// fixed raw inputs (crash / hang freedom of the decoding path on non-descriptions)
 	for _, via := range []string{"info", "meta"} {
-		for _, k := range []string{"deep-list", "deep-list-closed", "deep-dict", "deep-unknown", "deep-pieces", "deep-files"} {
+		for _, k := range []string{"deep-list", "deep-list-closed", "deep-dict", "deep-unknown", "deep-pieces", "deep-files", "deep-after-list", "deep-after-dict"} {
 			for _, n := range []int{1, 100, 10000} {
 				add(fmt.Sprintf("raw kind=%s n=%d via=%s", k, n, via))
 			}
@@ -600,6 +606,7 @@ func genParse(r *Rng, n int, tier string) []Case {
 		add("raw kind=long-string n=2147483647 via=" + via)
 		add("raw kind=deep-list n=3000000 via=" + via)
 		add("raw kind=deep-unknown n=3000000 via=" + via)
+		add("raw kind=deep-after-list n=3000000 via=" + via)
 		add("raw kind=long-string n=99999999999 via=" + via)
 		for k := 0; k < 32; k++ {
 			add(fmt.Sprintf("raw kind=overflow-string n=%d via=%s", k, via))
@@ -609,6 +616,15 @@ func genParse(r *Rng, n int, tier string) []Case {
 		add("raw kind=empty n=0 via=" + via)
 		for i := 0; i < 20; i++ {
 			add(fmt.Sprintf("raw kind=garbage n=%d via=%s", r.Range(1, 100000), via))
+		}
+	}
+	// every encoding of the private flag on small well-formed descriptions (C19), in both entry modes
+	privVals := []string{"i1", "i0", "s31", "s30", "s", "s74727565", "i-1", "i2", "l", "d", "i256", "i65536", "i2147483648", "i4294967295",
+		"i4294967296", "i-4294967296", "i-8589934592", "i281474976710656", "i9223372036854775807", "i-9223372036854775808", "i99999999999999999999", "D2"}
+	for _, pv := range privVals {
+		for _, mode := range []string{"info", "meta"} {
+			add(gInfo{Mode: mode, UTF8: true, Pad: true, Entries: []string{"name:s74", "pl:i16", "pieces:n20", "length:i9", "private:" + pv}}.Op())
+			add(gInfo{Mode: mode, UTF8: true, Pad: true, Entries: []string{"files:Flen=i9,path=Ps6630|len=i3,path=Ps6631", "name:s74", "pl:i16", "pieces:n20", "private:" + pv}}.Op())
 		}
 	}
 	for i := 0; i < n; i++ {
